@@ -96,6 +96,40 @@ def gen_kernel_group(rng, op, bits):
             g["lines"].append("k %s %d %d %d %d %d %d | %s | %s" % (
                 op, bits, cs, w, h, pitch, bu, " | ".join(" ".join(map(str, p)) for p in planes), " ".join(map(str, buf))))
             g["meta"].append({"cs": cs, "pitch": pitch, "bu": bu, "init": buf})
+    elif op in ("c2k", "k2c"):      # CMYK <-> YCCK: 4 samples per pixel, no layouts; pitch and row order
+        planes = [[sample(rng, mx, style) for _ in range(w * h)] for _ in range(4)]
+        g["planes"] = planes
+        for pad in PADS:
+            bu = rng.below(2)
+            pitch = w * 4 + pad
+            buf = junk(rng, h * pitch, bits)
+            if op == "c2k":
+                for y in range(h):
+                    s0 = row_start(y, h, pitch, bu)
+                    for x in range(w):
+                        for c in range(4):
+                            buf[s0 + 4 * x + c] = planes[c][y * w + x]
+                g["lines"].append("k c2k %d 4 %d %d %d %d | %s" % (bits, w, h, pitch, bu, " ".join(map(str, buf))))
+            else:
+                g["lines"].append("k k2c %d 4 %d %d %d %d | %s | %s" % (
+                    bits, w, h, pitch, bu, " | ".join(" ".join(map(str, p)) for p in planes), " ".join(map(str, buf))))
+            g["meta"].append({"cs": 4, "pitch": pitch, "bu": bu, "init": buf})
+    elif op[1] == "5":              # RGB565 (8-bit): alignment of the row pointers, rows per color_convert call, pitch, row order
+        if w < h + 1:
+            w = g["w"] = h + 1      # narrower images hit the num_cols underflow of jdcol565.c (reported finding): never generated
+        npl = 1 if op[0] == "g" else 3
+        planes = [[sample(rng, mx, style) for _ in range(w * h)] for _ in range(npl)]
+        g["planes"] = planes
+        variants = [(0, 0, 0), (2, 1, 0), (2, 0, 0), (0, 0, 2), (0, 1, 6), (2, 0, 6), (0, 2, 32), (2, 2, 4)]
+        for mis, chunk, pad in variants:
+            bu = rng.below(2)
+            scan0 = rng.below(4)
+            pitch = 2 * w + pad
+            buf = junk(rng, h * pitch, 8)
+            fl = bu | (mis << 1) | (chunk << 3) | (scan0 << 6)
+            g["lines"].append("k %s 8 16 %d %d %d %d | %s | %s" % (
+                op, w, h, pitch, fl, " | ".join(" ".join(map(str, p)) for p in planes), " ".join(map(str, buf))))
+            g["meta"].append({"cs": 16, "pitch": pitch, "bu": bu, "mis": mis, "chunk": chunk or h, "init": buf})
     else:   # y2g / r2g : no layouts, pitch and row order only
         planes = [[sample(rng, mx, style) for _ in range(w * h)] for _ in range(3)]
         g["planes"] = planes
@@ -197,9 +231,105 @@ def ints(s):
     return [int(x) for x in s.split()]
 
 
+def py_clamp(v, mx):
+    return 0 if v < 0 else mx if v > mx else v
+
+
+def py_rgb_of_ycc(y, cb, cr, mx):
+    """JFIF YCbCr -> RGB in the documented 16-bit fixed point"""
+    c = (mx + 1) // 2
+    return (py_clamp(y + ((91881 * (cr - c) + 32768) >> 16), mx),
+            py_clamp(y + ((-22554 * (cb - c) - 46802 * (cr - c) + 32768) >> 16), mx),
+            py_clamp(y + ((116130 * (cb - c) + 32768) >> 16), mx))
+
+
+def py_ycc_of_rgb(r, g, b, mx):
+    c = (mx + 1) // 2
+    return ((19595 * r + 38470 * g + 7471 * b + 32768) >> 16,
+            (-11059 * r - 21709 * g + 32768 * b + (c << 16) + 32767) >> 16,
+            (32768 * r - 27439 * g - 5329 * b + (c << 16) + 32767) >> 16)
+
+
+def judge_4comp(g, outs):
+    op, w, h, bits = g["op"], g["w"], g["h"], g["bits"]
+    mx = (1 << bits) - 1
+    pl = g["planes"]
+    for m, o in zip(g["meta"], outs):
+        if not o.startswith("ok"):
+            return ("kernel case failed: " + o[:60], "kernel-error:" + op)
+        if op == "c2k":
+            got = [ints(x) for x in o[2:].split("|")]
+            if len(got) != 4 or got[3] != pl[3]:
+                return ("c2k: the K plane is not the K samples of the CMYK pixels (pitch %d bottomup %d)" % (m["pitch"], m["bu"]), "cmyk:k-plane")
+            exp = [py_ycc_of_rgb(mx - pl[0][i], mx - pl[1][i], mx - pl[2][i], mx) for i in range(w * h)]
+            for c in range(3):
+                if got[c] != [e[c] for e in exp]:
+                    return ("c2k: YCC plane %d is not the conversion of the complemented C,M,Y (pitch %d bottomup %d, %d-bit)" % (c, m["pitch"], m["bu"], bits),
+                            "cmyk:ycck-plane%d" % c)
+        else:
+            buf, init, pitch, bu = ints(o[2:]), m["init"], m["pitch"], m["bu"]
+            inside = set()
+            for y in range(h):
+                s0 = row_start(y, h, pitch, bu)
+                for x in range(w):
+                    i = y * w + x
+                    r, gg, b = py_rgb_of_ycc(pl[0][i], pl[1][i], pl[2][i], mx)
+                    exp = [mx - r, mx - gg, mx - b, pl[3][i]]
+                    if buf[s0 + 4 * x:s0 + 4 * x + 4] != exp:
+                        return ("k2c: CMYK pixel (%d,%d) is %s, expected %s = (MAX-R, MAX-G, MAX-B, K) (pitch %d bottomup %d, %d-bit)"
+                                % (x, y, buf[s0 + 4 * x:s0 + 4 * x + 4], exp, pitch, bu, bits), "cmyk:ycck-cmyk")
+                inside.update(range(s0, s0 + 4 * w))
+            for i in range(len(buf)):
+                if i not in inside and buf[i] != init[i]:
+                    return ("k2c: wrote outside the row extent (index %d)" % i, "overwrite:k2c")
+    return None
+
+
+def judge_565(g, outs):
+    op, w, h = g["op"], g["w"], g["h"]
+    pl = g["planes"]
+    dith = op.endswith("d")
+    for m, o in zip(g["meta"], outs):
+        if not o.startswith("ok"):
+            return ("kernel case failed: " + o[:60], "kernel-error:" + op)
+        buf, init, pitch, bu = ints(o[2:]), m["init"], m["pitch"], m["bu"]
+        inside = set()
+        for y in range(h):
+            s0 = row_start(y, h, pitch, bu)
+            inside.update(range(s0, s0 + 2 * w))
+            if dith:
+                continue
+            for x in range(w):
+                i = y * w + x
+                if op[0] == "r":
+                    r, gg, b = pl[0][i], pl[1][i], pl[2][i]
+                elif op[0] == "g":
+                    r = gg = b = pl[0][i]
+                else:
+                    r, gg, b = py_rgb_of_ycc(pl[0][i], pl[1][i], pl[2][i], 255)
+                v = ((r << 8) & 0xF800) | ((gg << 3) & 0x7E0) | (b >> 3)
+                got = buf[s0 + 2 * x] + 256 * buf[s0 + 2 * x + 1]
+                if got != v:
+                    unwritten = buf[s0 + 2 * x:s0 + 2 * w] == init[s0 + 2 * x:s0 + 2 * w]
+                    if unwritten and m["mis"] + pitch % 4 != 0 and m["chunk"] > 1 and y % m["chunk"] != 0:
+                        return ("RGB565 (%s): the last %d pixel(s) of row %d (%d rows per color_convert call, output address %% 4 = %d, pitch %d, w %d) "
+                                "were not written: jdcol565.c decrements num_cols in the alignment branch and never resets it for the next row"
+                                % (op, w - x, y, m["chunk"], m["mis"], pitch, w), "rgb565-unaligned-multirow")
+                    return ("RGB565 (%s): pixel (%d,%d) is 0x%04x, expected 0x%04x (address %% 4 = %d, pitch %d, %d rows per call)"
+                            % (op, x, y, got, v, m["mis"], pitch, m["chunk"]), "rgb565-wrong:" + op)
+        for i in range(len(buf)):
+            if i not in inside and buf[i] != init[i]:
+                return ("RGB565 (%s): wrote outside the 2*w extent of the rows (index %d)" % (op, i), "overwrite:" + op)
+    return None
+
+
 def judge_kernel(g, outs):
     """property-level oracle on the implementation's own lines; returns (message, signature) or None"""
     op, w, h, bits = g["op"], g["w"], g["h"], g["bits"]
+    if op in ("c2k", "k2c"):
+        return judge_4comp(g, outs)
+    if op[1] == "5":
+        return judge_565(g, outs)
     amax = (1 << bits) - 1
     for o in outs:
         if not o.startswith("ok"):
@@ -316,7 +446,7 @@ def run(ctx):
         for fn in sorted(os.listdir(cdir)):
             if fn.endswith(".json"):
                 groups.append(json.load(open(os.path.join(cdir, fn))))
-    ops8 = ["c2y", "c2g", "c2r", "y2c", "g2c", "r2c", "y2g", "r2g", "m1", "m2"]
+    ops8 = ["c2y", "c2g", "c2r", "y2c", "g2c", "r2c", "y2g", "r2g", "m1", "m2", "c2k", "k2c", "y5", "r5", "g5", "y5d", "r5d", "g5d"]
     nk = ctx.n(900, 7000)
     for i in range(nk):
         op = ops8[i % len(ops8)] if i < 3 * len(ops8) else rng.choice(ops8)
@@ -325,6 +455,8 @@ def run(ctx):
             bits = 12
         if op in ("c2r", "r2c") and rng.chance(1, 6):
             bits = 16
+        if op[1] == "5":
+            bits = 8
         groups.append(gen_kernel_group(rng, op, bits))
     for i in range(ctx.n(800, 8000)):
         groups.append(gen_api(rng, "enc", ctx.thorough()))
